@@ -20,6 +20,12 @@ func VerifC20_OpenWithStoredConfig() {
 	cfg := config.NewDefaultConfig(dir)
 	cfg.MaxMemTables = 7
 	cfg.MemTableSize = 12345
+	walSub, sstSub := "wal", "sst"
+	if vsym.IntRange("customDirs", 0, 1) == 1 {
+		// a database created with its log and table directories somewhere else than the default sub-directories
+		walSub, sstSub = "logs-elsewhere", "tables-elsewhere"
+		cfg.WALDir, cfg.SSTDir = filepath.Join(dir, walSub), filepath.Join(dir, sstSub)
+	}
 	vsym.Assert(cfg.SaveManifest(dir) == nil, "SaveManifest failed")
 	e, err := NewEngineFacade(dir)
 	vsym.Assert(err == nil, "first open failed")
@@ -40,7 +46,8 @@ func VerifC20_OpenWithStoredConfig() {
 		}
 		return n
 	}
-	walBefore, sstBefore := count("wal", ".wal"), count("sst", ".sst")
+	walBefore, sstBefore := count(walSub, ".wal"), count(sstSub, ".sst")
+	defWal, defSst := count("wal", ".wal"), count("sst", ".sst")
 	what := vsym.IntRange("manifest", 0, 4)
 	switch what {
 	case 1: // cut at any byte
@@ -51,8 +58,6 @@ func VerifC20_OpenWithStoredConfig() {
 	case 3: // a stored configuration that violates a constraint (written by a different version, edited by hand ...)
 		bad := config.NewDefaultConfig(dir)
 		bad.MaxMemTables = 0
-		good := config.NewDefaultConfig(dir)
-		vsym.Assert(good.SaveManifest(dir) == nil, "SaveManifest failed")
 		// SaveManifest refuses it, so the invalid text is produced by marshalling directly, like an editor would
 		vsym.Assert(c20WriteRaw(mpath, bad), "writing the invalid manifest failed")
 	case 4:
@@ -73,7 +78,8 @@ func VerifC20_OpenWithStoredConfig() {
 		vsym.Assert(err != nil, "an unreadable or invalid stored configuration did not make opening fail (silent fallback)")
 		now, _ := os.ReadFile(mpath)
 		vsym.Assert(len(now) == len(after) && vsym.EqBytes(now, after), "a failed open overwrote the stored manifest")
-		vsym.Assert(count("wal", ".wal") == walBefore && count("sst", ".sst") == sstBefore, "a failed open created log or table files")
+		vsym.Assert(count(walSub, ".wal") == walBefore && count(sstSub, ".sst") == sstBefore, "a failed open created log or table files")
+		vsym.Assert(count("wal", ".wal") == defWal && count("sst", ".sst") == defSst, "a failed open created log or table files in the default directories")
 	case 4:
 		vsym.Assert(err == nil, "opening without a manifest failed")
 	}
